@@ -266,7 +266,7 @@ func (lc *lockCtx) entryState(f *ssa.Function, obj string, m *types.Var, depth i
 	}
 	lc.p.buildCallersLite()
 	sites := lc.p.staticCallers[f]
-	if len(sites) == 0 || lc.calledThroughInterface(f) {
+	if (len(sites) == 0 && !lc.p.addressTaken(f)) || lc.calledThroughInterface(f) {
 		return lkNone
 	}
 	key := fmt.Sprintf("%p|%s|%p|%v", f, obj, m, only)
@@ -312,6 +312,44 @@ func (lc *lockCtx) entryState(f *ssa.Function, obj string, m *types.Var, depth i
 			state = s
 		}
 	}
+	// uses as a method value (x.f handed to a helper that calls it, e.g. withLock(x.f)): the closure over the bound
+	// wrapper is judged like a function literal, with the receiver it was bound to
+	if pi == 0 && lc.p.addressTaken(f) {
+		for _, g := range lc.p.AllFuncs {
+			for _, b := range g.Blocks {
+				for _, ins := range b.Instrs {
+					mc, ok := ins.(*ssa.MakeClosure)
+					if !ok || len(mc.Bindings) == 0 {
+						continue
+					}
+					wf, ok := mc.Fn.(*ssa.Function)
+					if !ok || wf.Synthetic == "" || unwrapSynthetic(wf) != f {
+						continue
+					}
+					callerObj := objKey(lc.p, mc.Bindings[0]) + path
+					for _, ref := range *mc.Referrers() {
+						u, ok := ref.(*ssa.Call)
+						if !ok {
+							if _, dbg := ref.(*ssa.DebugRef); dbg {
+								continue
+							}
+							state = lkNone
+							n++
+							continue
+						}
+						n++
+						s1 := lc.stateAt(g, u, callerObj, m, depth+1)
+						if s2, ok := lc.stateInCalleeV(u, mc, callerObj, m, depth+1); ok && s2 > s1 {
+							s1 = s2
+						}
+						if s1 < state {
+							state = s1
+						}
+					}
+				}
+			}
+		}
+	}
 	if n == 0 {
 		state = lkExcl // no call site with these constants: vacuous
 	}
@@ -322,6 +360,10 @@ func (lc *lockCtx) entryState(f *ssa.Function, obj string, m *types.Var, depth i
 // stateInCallee: closure mc is passed as an argument of call u to a repo function that only calls it (synchronously):
 // the lock state at those calls inside the callee, with obj translated to the callee's parameter it is rooted in.
 func (lc *lockCtx) stateInCallee(u *ssa.Call, mc *ssa.MakeClosure, obj string, m *types.Var, depth int) (int, bool) {
+	return lc.stateInCalleeV(u, mc, obj, m, depth)
+}
+
+func (lc *lockCtx) stateInCalleeV(u *ssa.Call, mc ssa.Value, obj string, m *types.Var, depth int) (int, bool) {
 	sc := u.Common().StaticCallee()
 	if sc == nil || sc.Blocks == nil || sc.Pkg == nil || !strings.HasPrefix(sc.Pkg.Pkg.Path(), modPath) || depth > 4 {
 		return lkNone, false
@@ -341,7 +383,7 @@ func (lc *lockCtx) stateInCallee(u *ssa.Call, mc *ssa.MakeClosure, obj string, m
 	}
 	state, n := lkExcl, 0
 	for ai, a := range u.Common().Args {
-		if a != ssa.Value(mc) || ai >= len(sc.Params) {
+		if a != mc || ai >= len(sc.Params) {
 			continue
 		}
 		for _, ref := range *sc.Params[ai].Referrers() {
@@ -791,9 +833,10 @@ func (lc *lockCtx) anyEntryLock(f *ssa.Function, depth int) int {
 			}
 		}
 	}
-	lc.p.buildCallersLite()
-	sites := lc.p.staticCallers[f]
-	if len(sites) == 0 || lc.calledThroughInterface(f) {
+	// every place the function is entered: static calls, and for function literals / method values the calls of the
+	// closure (directly, or by the repo function / synchronous library function it is handed to)
+	sites, ok := lc.p.liftSites(f)
+	if !ok || len(sites) == 0 {
 		return lkNone
 	}
 	state := lkExcl
@@ -804,7 +847,7 @@ func (lc *lockCtx) anyEntryLock(f *ssa.Function, depth int) int {
 		g := cs.Parent()
 		best := lkNone
 		for _, l := range allMutexObjs(lc.p, g) {
-			if s := lc.stateAt(g, cs.(ssa.Instruction), l.obj, l.mutex, depth+1); s > best {
+			if s := lc.stateAt(g, cs, l.obj, l.mutex, depth+1); s > best {
 				best = s
 			}
 		}
@@ -988,6 +1031,11 @@ func checkUnguardedTypes(p *Prog, res *Result, inOwner map[*types.Var]bool) {
 			res.ok("C19-R4", construct, pos, fmt.Sprintf("accessed through sync/atomic only (%d sites)", fi.atomic))
 			continue
 		}
+		// objects of this type that never leave the goroutine that allocated them need no synchronisation at all
+		if p.typeNeverEscapes(fi.owner) {
+			res.ok("C19-R4", construct, pos, "every object of this type is allocated locally and never escapes its goroutine (not stored, sent, returned or handed to a go statement)")
+			continue
+		}
 		reason, listed := confinedFields[k]
 		if !listed {
 			// whole-type entries
@@ -1009,6 +1057,222 @@ func checkUnguardedTypes(p *Prog, res *Result, inOwner map[*types.Var]bool) {
 			res.bad("C19-R4", construct, pos, fmt.Sprintf("a field of a type without a mutex is written after construction (%d write site(s)) and is neither accessed atomically nor listed as confined to one goroutine: potential unsynchronised shared state", len(fi.writes)))
 		}
 	}
+}
+
+// typeNeverEscapes: every allocation of the named struct type T in the repo is a local object that stays within the
+// allocating goroutine. An object stays local if its address is only used for field accesses, as receiver/argument of
+// repo functions that keep it local in turn, in a method value or function literal that is called, deferred or passed
+// to a known synchronous higher-order function, and in local variables. Being stored into another object, sent,
+// returned, converted to an interface or captured by a go statement makes it escape.
+func (p *Prog) typeNeverEscapes(T *types.Named) bool {
+	if p.escCache == nil {
+		p.escCache = map[*types.Named]bool{}
+	}
+	if v, ok := p.escCache[T]; ok {
+		return v
+	}
+	p.escCache[T] = false
+	n := 0
+	ok := true
+	// a type whose values also live inside slices, maps, channels or other structs is not judged by its Allocs alone
+	holds := func(t types.Type) bool {
+		switch u := t.Underlying().(type) {
+		case *types.Slice:
+			return types.Identical(u.Elem(), T) || types.Identical(u.Elem(), types.NewPointer(T))
+		case *types.Array:
+			return types.Identical(u.Elem(), T) || types.Identical(u.Elem(), types.NewPointer(T))
+		case *types.Map:
+			return types.Identical(u.Elem(), T) || types.Identical(u.Elem(), types.NewPointer(T))
+		case *types.Chan:
+			return types.Identical(u.Elem(), T) || types.Identical(u.Elem(), types.NewPointer(T))
+		}
+		return false
+	}
+	for _, sp := range p.SSAPkgs {
+		sc := sp.Pkg.Scope()
+		for _, name := range sc.Names() {
+			tn, isT := sc.Lookup(name).(*types.TypeName)
+			if !isT {
+				continue
+			}
+			if st, isS := tn.Type().Underlying().(*types.Struct); isS {
+				for i := 0; i < st.NumFields(); i++ {
+					ft := st.Field(i).Type()
+					if types.Identical(ft, T) || types.Identical(ft, types.NewPointer(T)) || holds(ft) {
+						return false
+					}
+				}
+			}
+		}
+	}
+	for _, f := range p.AllFuncs {
+		for _, b := range f.Blocks {
+			for _, ins := range b.Instrs {
+				if v, isV := ins.(ssa.Value); isV && holds(v.Type()) {
+					return false
+				}
+			}
+		}
+	}
+	for _, f := range p.AllFuncs {
+		for _, b := range f.Blocks {
+			for _, ins := range b.Instrs {
+				al, isAl := ins.(*ssa.Alloc)
+				if !isAl {
+					continue
+				}
+				if pt, isP := al.Type().(*types.Pointer); !isP || !types.Identical(pt.Elem(), T) {
+					continue
+				}
+				n++
+				if !p.staysLocal(al, 0, map[ssa.Value]bool{}) {
+					ok = false
+				}
+			}
+		}
+	}
+	// values of T embedded in other objects or created by composite literals of other types are not covered
+	res := ok && n > 0
+	p.escCache[T] = res
+	return res
+}
+
+func (p *Prog) staysLocal(v ssa.Value, depth int, seen map[ssa.Value]bool) bool {
+	if depth > 6 {
+		return false
+	}
+	if seen[v] {
+		return true
+	}
+	seen[v] = true
+	refs := v.Referrers()
+	if refs == nil {
+		return true
+	}
+	var closureLocal func(mc ssa.Value) bool
+	closureLocal = func(mc ssa.Value) bool {
+		// what the function literal / bound method does with the captured object
+		if m, ok := mc.(*ssa.MakeClosure); ok {
+			fn := m.Fn.(*ssa.Function)
+			for i, bnd := range m.Bindings {
+				if bnd == v && i < len(fn.FreeVars) {
+					if !p.staysLocal(fn.FreeVars[i], depth+1, seen) {
+						return false
+					}
+				}
+			}
+		}
+		for _, r2 := range *mc.Referrers() {
+			switch u := r2.(type) {
+			case *ssa.ChangeType:
+				if !closureLocal(u) {
+					return false
+				}
+				continue
+			}
+			switch u := r2.(type) {
+			case *ssa.Call:
+				if u.Common().Value == mc {
+					continue // called directly
+				}
+				sc := u.Common().StaticCallee()
+				if sc == nil {
+					return false
+				}
+				if syncHigherOrder[sc.String()] {
+					continue
+				}
+				if sc.Blocks != nil && sc.Pkg != nil && strings.HasPrefix(sc.Pkg.Pkg.Path(), modPath) {
+					// a repo function that only calls the function value it is given
+					okUse := true
+					for ai, a := range u.Common().Args {
+						if a != mc || ai >= len(sc.Params) {
+							continue
+						}
+						for _, r3 := range *sc.Params[ai].Referrers() {
+							switch c3 := r3.(type) {
+							case *ssa.Call:
+								if c3.Common().Value != ssa.Value(sc.Params[ai]) {
+									okUse = false
+								}
+							case *ssa.DebugRef:
+							default:
+								okUse = false
+							}
+						}
+					}
+					if okUse {
+						continue
+					}
+				}
+				return false
+			case *ssa.Defer:
+				continue
+			case *ssa.DebugRef:
+				continue
+			default:
+				return false
+			}
+		}
+		return true
+	}
+	for _, ref := range *refs {
+		switch x := ref.(type) {
+		case *ssa.FieldAddr, *ssa.DebugRef:
+		case *ssa.UnOp:
+			// load of the struct value (copy) - the copy is a value, not the object
+		case *ssa.Store:
+			if x.Val == v {
+				// stored into a local variable cell that is only loaded / stored locally
+				cell, ok := x.Addr.(*ssa.Alloc)
+				if !ok {
+					return false
+				}
+				for _, cr := range *cell.Referrers() {
+					switch y := cr.(type) {
+					case *ssa.Store:
+					case *ssa.UnOp:
+						if !p.staysLocal(y, depth+1, seen) {
+							return false
+						}
+					case *ssa.DebugRef:
+					case *ssa.MakeClosure:
+						if !closureLocal(y) {
+							return false
+						}
+					default:
+						return false
+					}
+				}
+			}
+		case *ssa.MakeClosure:
+			if !closureLocal(x) {
+				return false
+			}
+		case ssa.CallInstruction:
+			if _, isGo := ref.(*ssa.Go); isGo {
+				return false
+			}
+			sc := x.Common().StaticCallee()
+			if sc == nil || sc.Blocks == nil || sc.Pkg == nil || !strings.HasPrefix(sc.Pkg.Pkg.Path(), modPath) {
+				return false
+			}
+			for ai, a := range x.Common().Args {
+				if a == v && ai < len(sc.Params) {
+					if !p.staysLocal(sc.Params[ai], depth+1, seen) {
+						return false
+					}
+				}
+			}
+		case *ssa.Phi:
+			if !p.staysLocal(x, depth+1, seen) {
+				return false
+			}
+		default:
+			return false // returned, sent, converted to an interface, stored in a map ...
+		}
+	}
+	return true
 }
 
 // outsideSingleflight: every post-construction access of field fv happens inside a function literal passed to
